@@ -213,6 +213,12 @@ type c14Blk struct {
 	// alphabet; transaction 0 is the coinbase
 	Txs     []string `json:"txs"` // "in/out", e.g. "01/023"
 	Mempool bool     `json:"mempool"`
+	// Big: "ntx:nin:nout:dup" - a generated block instead of Txs: a coinbase and ntx transactions with
+	// nin inputs (all outpoints distinct; every dup-th one repeats the outpoint before it, in another
+	// transaction) and nout outputs (scripts distinct; every dup-th one repeats the script before it)
+	Big string `json:"generated_block,omitempty"`
+	// Nonce of the block header (the filter key is taken from the block hash)
+	Nonce uint32 `json:"header_nonce,omitempty"`
 }
 
 var c14Scripts = [][]byte{{}, {0x51}, {0x76, 0xa9, 0x14, 1, 2, 3, 4, 5, 6, 7, 8, 9, 10, 11, 12, 13, 14, 15, 16, 17, 18, 19, 20, 0x88, 0xac}, {0x6a, 0x02, 0xca, 0xfe},
@@ -233,6 +239,43 @@ func c14OutPoint(d byte) wire.OutPoint {
 
 func c14BuildTxs(cas c14Blk) []*wire.MsgTx {
 	var txs []*wire.MsgTx
+	if cas.Big != "" {
+		var ntx, nin, nout, dup int
+		if _, err := fmt.Sscanf(cas.Big, "%d:%d:%d:%d", &ntx, &nin, &nout, &dup); err != nil {
+			panic("c14: bad generated block " + cas.Big)
+		}
+		cbx := wire.NewMsgTx(1)
+		cbx.AddTxIn(wire.NewTxIn(&wire.OutPoint{Index: 0xffffffff}, []byte{0x01, 0x02}))
+		cbx.AddTxOut(wire.NewTxOut(50, []byte{0x51, 0x51}, wire.TokenData{}))
+		txs = append(txs, cbx)
+		ci, co := 0, 0
+		var lastO wire.OutPoint
+		var lastS []byte
+		for t := 0; t < ntx; t++ {
+			tx := wire.NewMsgTx(1)
+			tx.LockTime = uint32(t)
+			for i := 0; i < nin; i++ {
+				ci++
+				o := wire.OutPoint{Hash: chainhash.Hash{byte(ci), byte(ci >> 8), byte(ci >> 16), 0xb1}, Index: uint32(ci % 7)}
+				if dup > 0 && ci%dup == 0 && ci > 1 {
+					o = lastO
+				}
+				lastO = o
+				tx.AddTxIn(wire.NewTxIn(&o, []byte{0x51}))
+			}
+			for i := 0; i < nout; i++ {
+				co++
+				sc := []byte{0x76, 0xa9, 0x14, byte(co), byte(co >> 8), byte(co >> 16), 4, 5, 6, 7, 8, 9, 10, 11, 12, 13, 14, 15, 16, 17, 18, 19, 20, 0x88, 0xac}
+				if dup > 0 && co%dup == 0 && co > 1 {
+					sc = lastS
+				}
+				lastS = sc
+				tx.AddTxOut(wire.NewTxOut(int64(co), sc, wire.TokenData{}))
+			}
+			txs = append(txs, tx)
+		}
+		return txs
+	}
 	for ti, t := range cas.Txs {
 		tx := wire.NewMsgTx(1)
 		tx.LockTime = uint32(ti)
@@ -280,7 +323,7 @@ func c14EvalBlock(w *mc.W, cas c14Blk) {
 				}
 			}
 		} else {
-			blk := wire.NewMsgBlock(fixedHeader(1, &chainhash.Hash{9}, &chainhash.Hash{8}, 7, 6))
+			blk := wire.NewMsgBlock(fixedHeader(1, &chainhash.Hash{9}, &chainhash.Hash{8}, 7, 6+cas.Nonce))
 			for _, tx := range txs {
 				blk.AddTransaction(tx)
 			}
@@ -609,6 +652,36 @@ func runC14(c *mc.Ctx) {
 		}
 	}
 	blks = append(blks, c14Blk{Txs: nil, Mempool: true})
+	// generated blocks with many transactions / inputs / outputs (counts beyond 2^8 and 2^16 in the
+	// BUILDER: preallocation, de-duplication structures), with and without repeated entries
+	for _, g := range mc.Pick(c, []string{"1:300:300:0", "300:1:1:0", "300:2:2:3", "2:40000:30000:0", "70000:1:1:7"}, []string{"1:300:300:0", "300:1:1:0", "300:2:2:3", "2:40000:30000:0", "70000:1:1:7", "1:70000:70000:0", "256:256:256:5", "1:255:0:0", "1:0:256:0", "1:65536:0:2"}) {
+		blks = append(blks, c14Blk{Big: g}, c14Blk{Big: g, Mempool: true})
+	}
+	// header nonces chosen so that the block hash (the filter key) starts with a zero byte, ends its key
+	// part with a zero byte, or has the top bit set in its first byte (found by trying nonces)
+	{
+		want := map[string]bool{}
+		for n := uint32(0); n < 200000 && len(want) < 4; n++ {
+			blk := wire.NewMsgBlock(fixedHeader(1, &chainhash.Hash{9}, &chainhash.Hash{8}, 7, 6+n))
+			h := blk.BlockHash()
+			kind := ""
+			switch {
+			case h[0] == 0 && h[1] == 0:
+				kind = "two leading zero bytes"
+			case h[0] == 0:
+				kind = "leading zero byte"
+			case h[15] == 0:
+				kind = "zero at key end"
+			case h[0] >= 0x80 && h[8] >= 0x80:
+				kind = "top bits"
+			}
+			if kind != "" && !want[kind] {
+				want[kind] = true
+				blks = append(blks, c14Blk{Txs: []string{"0/2", "12/31"}, Nonce: n}, c14Blk{Big: "3:3:3:2", Nonce: n})
+			}
+		}
+		c.Note("block_hash_shapes_reached_by_nonce_search", len(want))
+	}
 	c.Space("blocks / transaction lists for the block-filter builders", int64(len(blks)))
 	c.ParFor(int64(len(blks)), func(w *mc.W, i int64) {
 		w.State()
